@@ -8,7 +8,7 @@ the alter sections and the index records.
 """
 from .idents import Speller
 
-VALUES = {"v1": "'x'", "v2": "'y z'", "v3": "7", "": ""}  # v3 (numeric) only with a named constraint: the unnamed numeric form is not a supported ALTER
+VALUES = {"v1": "'x'", "v2": "'y z'", "v3": "7", "v4": "NULL", "": ""}  # v3 (numeric) only with a named constraint: the unnamed numeric form is not a supported ALTER
 CHECKS = {"e1": ("(a1 > 0)", "a1 > 0")}
 REF = ("s9", "o")
 OTHER_DDL = {
@@ -19,6 +19,8 @@ OTHER_DDL = {
     "database": "CREATE DATABASE db1;",
     "tablespace": "CREATE TABLESPACE ts1;",
     "ddl_property": "SET qq = 1;",
+    # a table created LIKE the table the script's ALTERs work on: its own (empty) column list and alter section must stay untouched by them
+    "liketable": "CREATE TABLE zlike LIKE s1.t;",
 }
 OTHER_KEY = {"sequence": "sequence_name", "type": "type_name", "domain": "domain_name", "schema": "schema_name",
              "database": "database_name", "tablespace": "tablespace_name", "ddl_property": "value"}
@@ -149,6 +151,9 @@ def _one(x):
 
 
 def project_entity(e):
+    if "like" in e and "table_name" in e:
+        untouched = not e.get("columns") and not e.get("alter") and not e.get("index")
+        return {"kind": "liketable"} if untouched else {"kind": "liketable", "columns": [c.get("name") for c in e.get("columns", [])], "alter": e.get("alter"), "index": e.get("index")}
     if "table_name" not in e:
         for kind, key in OTHER_KEY.items():
             if key in e:
